@@ -15,6 +15,15 @@
      different garbage in every undesignated cell of every arena, slack and register, produced the same results;
      in_same = operand arenas and index lists unmodified; slack_ok = nothing written in front of any arena.
 
+   wide = TRUE: a call with a HUGE stride or index-list entry (2^29 and more: some operand lives in a sparse arena - the whole
+     span reserved, only the pages holding designated cells accessible, plus decoy pages where a position narrowed to 32 bits
+     would land).  TLC integers are 32 bit, so such an event carries every stride (saw sbw scw), index-list entry (iaw ibw icw),
+     designated position (aaw abw acw), extent (eaw ebw ecw) and changed position (chgw: every accessible cell of the result
+     arena is scanned, decoys and cells in front of the base pointer included - those as two's-complement words) as a 64-bit
+     word of 8 limbs, and is judged by OkCallW with the limb forms of Layout.tla (AddrW, ExtentW, CellOkW, ChangedCellsW) exactly
+     like any other call: lane k is the operation on the k-th designated operands, the changed cells are the write footprint.
+     Wide calls are made on separate objects or with the result in place (ca / cb: one array, one address map).
+
    The event is accepted iff the driver designated the cells the row's descriptors mean (Addr), the arenas had the
    exact extent, every lane's result is the field operation on the k-th designated operands (mod p; copies: the same
    word), the changed cells are exactly the write footprint, and no undesignated memory influenced the result. *)
@@ -37,7 +46,7 @@ PreWords(e, row, n) ==
        [] e.alias = "sc" -> [k \in 1..n |-> IF e.ac[k] = e.ac[e.aj + 1] THEN sw ELSE <<>>]
        [] OTHER -> [k \in 1..n |-> <<>>]
 
-OkCall(e) ==
+OkCallN(e) ==
   /\ e.id \in Ov17Ids
   /\ LET row == Ov17[e.id]
          n == row.lanes
@@ -74,6 +83,48 @@ OkCall(e) ==
         /\ SeqSet(e.chg) = ChangedCells(row.c, n, e.sc, e.ic, e.r, PreWords(e, row, n))
         /\ e.same                                  \* no stray read influences the result
         /\ e.in_same /\ e.slack_ok                 \* nothing else written
+
+(* ---- calls with huge strides / index-list entries: positions are 64-bit limb words *)
+AddrOkW(d, n, sw, ixw, addrsw, extw) ==
+  /\ FitsW(sw) /\ \A i \in 1..Len(ixw) : FitsW(ixw[i])
+  /\ (d.kind = "index" => Len(ixw) = n)
+  /\ Len(addrsw) = n
+  /\ \A k \in Lanes(n) : addrsw[k + 1] = AddrW(d, k, sw, ixw)
+  /\ extw = ExtentW(d, n, sw, ixw)
+ASSUME /\ MulSmallW(3, <<0, 0, 0, 64, 0, 0, 0, 0>>) = <<0, 0, 0, 192, 0, 0, 0, 0>>                       \* 3 * 2^30
+       /\ MulSmallW(3, <<255, 255, 255, 127, 0, 0, 0, 0>>) = <<253, 255, 255, 127, 1, 0, 0, 0>>           \* 3 * (2^31 - 1)
+       /\ MulSmallW(7, <<3, 0, 0, 0, 1, 0, 0, 0>>) = <<21, 0, 0, 0, 7, 0, 0, 0>>                          \* 7 * (2^32 + 3)
+       /\ SuccW(<<255, 255, 255, 255, 0, 0, 0, 0>>) = <<0, 0, 0, 0, 1, 0, 0, 0>>
+       /\ \A s \in {0, 1, 3, 517, 4099}, k \in 0..7 : MulSmallW(k, OfInt(s)) = OfInt(k * s) /\ SuccW(OfInt(k * s)) = OfInt((k * s) + 1)
+       /\ MaxW({<<0, 0, 0, 0, 1, 0, 0, 0>>, <<255, 255, 255, 255, 0, 0, 0, 0>>, Zero8}) = <<0, 0, 0, 0, 1, 0, 0, 0>>
+
+OkCallW(e) ==
+  /\ e.id \in Ov17Ids
+  /\ LET row == Ov17[e.id]
+         n == row.lanes
+         bv == IF row.op = "copy" THEN e.a ELSE e.b
+     IN /\ row.defined
+        /\ e.nl = n /\ Len(e.a) = n /\ Len(bv) = n /\ Len(e.r) = n
+        /\ IsWordSeq(e.a) /\ IsWordSeq(bv) /\ IsWordSeq(e.r)
+        /\ AddrOkW(row.a, n, e.saw, e.iaw, e.aaw, e.eaw)
+        /\ (row.op # "copy" => AddrOkW(row.b, n, e.sbw, e.ibw, e.abw, e.ebw))
+        /\ AddrOkW(row.c, n, e.scw, e.icw, e.acw, e.ecw)
+        \* separate objects, or the result in place: one address map, pairwise distinct lanes
+        /\ e.alias \in {"none", "ca", "cb"} /\ AliasAllowed(row, e.alias) /\ e.aj \in Lanes(n)
+        /\ (e.alias = "ca" => e.saw = e.scw /\ e.iaw = e.icw /\ InjectiveW(row.c, n, e.scw, e.icw))
+        /\ (e.alias = "cb" => e.sbw = e.scw /\ e.ibw = e.icw /\ InjectiveW(row.c, n, e.scw, e.icw))
+        /\ e.dlv = "none" /\ e.des = "none" /\ e.dl \in Lanes(n) /\ ~e.ixo
+        \* every lane: the field operation on the operand values held before the call
+        /\ IF InMemory(row.c)
+             THEN \A k \in Lanes(n) : CellOkW(row.op, row.c, n, e.scw, e.icw, AddrW(row.c, k, e.scw, e.icw), e.r[k + 1], e.a, bv)
+             ELSE \A k \in Lanes(n) : ResultOk(row.op, e.r[k + 1], e.a[k + 1], bv[k + 1])
+        \* written: exactly the write footprint, among ALL accessible cells of the sparse result arena
+        /\ IsWordSeq(e.chgw) /\ e.nchg = Len(e.chgw)
+        /\ SeqSet(e.chgw) = ChangedCellsW(row.c, n, e.scw, e.icw, e.r, PreWords(e, row, n))
+        /\ e.same                                  \* no stray read (decoy, garbage) influences the result
+        /\ e.in_same /\ e.slack_ok                 \* nothing else written
+
+OkCall(e) == IF e.wide THEN OkCallW(e) ELSE OkCallN(e)
 
 (* bulk copies: exactly `size` elements transferred / zeroed, for every thread-count argument, in every delivery environment
    (env: ParChunks Envs) - the team the runtime delivers is not the caller's to choose *)
